@@ -14,7 +14,7 @@
 #define NDATA 4
 #endif
 #define NTOK (3 + 4 + 2 + 2 + 1 + 1)
-#define MAXMSG (20 + 6 * 6 + 6 + 2 * 12 + 7 + 2)
+#define MAXMSG (20 + 6 * 6 + 6 + 2 * 12 + 7 + 2 + 1)
 #define RMAX (NTOK + 1)
 #define NOGROUP
 #include "codec_world.h"
@@ -25,6 +25,22 @@
 uint8_t cx_data[NDATA + 1], cx_n, cx_place = PLACE, cx_cs[3], cx_nochk = 1, cx_perm, cx_accept, cx_exc, cx_gotlen;
 uint8_t cx_msg[MAXMSG]; uint32_t cx_len, cx_sum;
 static uint8_t NSEL;
+#ifdef FW_PRECOND
+/* C03 composition harness: the Length text is two arbitrary digits (00..99) while the message carries NSEL data bytes.  Every call of the
+   fixed-width extractor made by the real MessageBase::decode goes through this wrapper (ir2c --wrap), which asserts the precondition
+   under which the C03_fw_* kernel harnesses prove the extractor memory safe: val_sz <= capacity of decode's value buffer - 1 (the
+   extractor stores val[val_sz] = 0 and has no capacity parameter for val).  The run ends at the call site (the extractor itself is the
+   subject of the kernel harnesses); the other path is the refusal by decode's capacity test. */
+uint8_t cx_lendig[2]; uint32_t cx_valsz, cx_fldcap = FLDCAP;
+uint32_t W_FW_SYM(uint8_t *from, uint32_t sz, uint32_t val_sz, uint8_t *tag, uint8_t *val, uint32_t tsz)
+{
+  cx_valsz = val_sz;
+  VF_ASSERT(val_sz + 1 <= FLDCAP, "C03: MessageBase::decode hands the fixed-width extractor only value lengths that fit its value buffer (val_sz <= FIX8_MAX_FLD_LENGTH - 1)");
+  VF_REACH();
+  VF_ASSUME(0);             /* the run ends here: continuing under the symbolic path condition "the capacity test let val_sz through" would make every later offset a case split */
+  return 0;
+}
+#endif
 static void tok_const(const char *tag, int tl, uint32_t num, const char *val, int vl)
 {
   uint8_t t[5] = { 0 }, v[TKV] = { 0 };
@@ -37,7 +53,14 @@ static void pair(const char *ltag, uint32_t lnum, const char *dtag, uint32_t dnu
 {
   uint8_t t[5] = { 0 }, v[TKV] = { 0 };
   t[0] = (uint8_t)ltag[0]; t[1] = (uint8_t)ltag[1]; v[0] = (uint8_t)('0' + NSEL);
+#ifdef FW_PRECOND
+  cx_lendig[0] = nondet_u8(); cx_lendig[1] = nondet_u8();
+  VF_ASSUME(cx_lendig[0] >= '0' && cx_lendig[0] <= '9' && cx_lendig[1] >= '0' && cx_lendig[1] <= '9');
+  v[0] = cx_lendig[0]; v[1] = cx_lendig[1];
+  k_len = TK_n; TK_add(1, lnum, t, 2, v, 2, 6);
+#else
   k_len = TK_n; TK_add(1, lnum, t, 2, v, 1, 5);
+#endif
   uint8_t t2[5] = { 0 }, v2[TKV] = { 0 };
   t2[0] = (uint8_t)dtag[0]; t2[1] = (uint8_t)dtag[1];
   for (int j = 0; j < NDATA; j++) if (j < NSEL) v2[j] = cx_data[j];
@@ -75,6 +98,9 @@ static int run(void)
   int thrown = __vf_exc_pending; int kind = thrown ? W_exc_kind() : -1; __vf_exc_pending = 0;
   cx_accept = !thrown; cx_exc = (uint8_t)kind;
   VF_REACH();               /* the decoder returned (accepted or threw): reachable whatever the verdict of the assertions below */
+#ifdef FW_PRECOND
+  return 0;                 /* the subject is the assertion inside the wrapper */
+#else
   VF_ASSERT(!W_rec_overflow && !TK_bad, "C06: the decoder never tokenizes inside a data value (tokenizer cut consistent)");
 #ifdef EXPECT_REJECT      /* boundary harness (C03): a data length that does not fit the decoder's value buffer must be refused, with no memory error */
   VF_ASSERT(thrown, "C03: a data field whose length does not fit the decoder's value buffer is refused");
@@ -102,6 +128,7 @@ static int run(void)
     VF_REACH();
   }
   return 0;
+#endif
 }
 int main(void)
 {
